@@ -8,7 +8,7 @@ use serde::de::DeserializeOwned;
 use serde_json::Value;
 use std::collections::HashMap;
 use std::io::ErrorKind;
-use std::sync::atomic::{AtomicU64, Ordering};
+use std::sync::atomic::{AtomicBool, AtomicU64, Ordering};
 use std::sync::{Arc, Mutex as StdMutex};
 use tokio::io::AsyncWriteExt;
 use tokio::io::{BufReader, BufWriter};
@@ -28,6 +28,10 @@ pub struct AsyncClient {
 
 struct AsyncClientInner {
     writer: Mutex<BufWriter<OwnedWriteHalf>>,
+    /// Set while a frame is being written (only ever touched under the `writer`
+    /// lock). Still set when a send failed part-way or was abandoned mid-frame
+    /// (its future dropped by a caller's timeout or abort).
+    mid_frame: AtomicBool,
     pending: StdMutex<PendingRequests>,
     next_id: AtomicU64,
     shutdown: StdMutex<Option<oneshot::Sender<()>>>,
@@ -104,6 +108,7 @@ impl AsyncClient {
         let (shutdown_tx, shutdown_rx) = oneshot::channel();
         let inner = Arc::new(AsyncClientInner {
             writer: Mutex::new(BufWriter::new(write_half)),
+            mid_frame: AtomicBool::new(false),
             pending: StdMutex::new(HashMap::new()),
             next_id: AtomicU64::new(1),
             shutdown: StdMutex::new(Some(shutdown_tx)),
@@ -657,8 +662,19 @@ impl AsyncClient {
 
     async fn write_request(&self, msg: &Message) -> Result<(), RepeError> {
         let mut writer = self.inner.writer.lock().await;
+        // An earlier send that failed part-way, or whose future was dropped
+        // mid-frame, has left a torn frame on the wire. Nothing may follow a
+        // torn frame: fail the connection instead of appending to it.
+        if self.inner.mid_frame.swap(true, Ordering::Relaxed) {
+            let _ = writer.get_mut().shutdown().await;
+            return Err(RepeError::Io(std::io::Error::new(
+                std::io::ErrorKind::BrokenPipe,
+                "connection failed: an earlier request was interrupted mid-frame",
+            )));
+        }
         write_message_async(&mut *writer, msg).await?;
         writer.flush().await?;
+        self.inner.mid_frame.store(false, Ordering::Relaxed);
         Ok(())
     }
 
